@@ -150,6 +150,15 @@ def gen_spec(rng, solver=None, maxdim=4, nsteps=(3, 12), flavour=None):
         spec["reducer"] = rng.choice(["sum", "max"])
     if rng.random() < 0.45:
         lo, hi, bk = gen_box(rng, dim, x0)
+        if rng.random() < 0.2:
+            # the start EXACTLY on a bound (the closed box includes its faces), or beyond it (the solver clips it onto the face)
+            j = rng.randrange(dim)
+            off = rng.choice([0.0, 0.0, 0.5])
+            if rng.random() < 0.6:
+                hi[j] = x0[j] - off; lo[j] = min(lo[j], hi[j] - 1.0) if math.isfinite(lo[j]) else lo[j]
+            else:
+                lo[j] = x0[j] + off; hi[j] = max(hi[j], lo[j] + 1.0) if math.isfinite(hi[j]) else hi[j]
+            bk = bk + "+start-on-face"
         tight, clip = rng.choice([(None, None), (None, None), (True, None), (False, None), (True, True), (None, True)])
         if not any(math.isfinite(v) for v in lo + hi):
             tight, clip = None, None     # symbolic_bounds of a fully infinite box is empty text (SetStrictRanges raises)
